@@ -60,6 +60,8 @@ def run():
     text = mod.text
     results, info = [], {}
 
+    defs = []
+
     def s_ident(eng, path, argv, callee):
         return path.deref(argv[0])
 
@@ -87,7 +89,10 @@ def run():
         s = sv(path, argv[0])
         lit = const_lit(argv[1])
         has = z3.PrefixOf(z3.StringVal(lit), s)
-        rest = SObj(z3.SubString(s, len(lit), z3.Length(s) - len(lit)))
+        # the remainder is a fresh string r with s = lit ++ r (when the prefix is present): friendlier to the sequence solver than substr
+        r = z3.String('rest%d' % next(Obj.cnt))
+        defs.append(z3.Implies(has, s == z3.Concat(z3.StringVal(lit), r)))   # a definition of r, asserted in every query
+        rest = SObj(r)
         o = enum_obj(z3.If(has, z3.IntVal(1), z3.IntVal(0)), 'Some', None)
         pay = Obj('p%d' % next(Obj.cnt))
         pay.fields[0] = rest
@@ -106,6 +111,30 @@ def run():
         path.cond.append(z3.Not(bad))
         return o.get(('as', 'Some')).get(0)
 
+    DIG = z3.Range('0', '9')
+    U64_SUP = z3.Concat(z3.Option(z3.Re('+')), z3.Plus(DIG))                      # everything u64::from_str can accept
+    U64_SUB = z3.Concat(z3.Option(z3.Re('+')), z3.Star(z3.Re('0')), z3.Loop(DIG, 1, 19))  # certainly below 2^64
+    parses = z3.Function('parses_as_u64', z3.StringSort(), z3.BoolSort())
+    parse_axioms = []
+
+    def s_parse_u64(eng, path, argv, callee):
+        # u64::from_str (documented): optional '+', then one or more ASCII digits, value <= u64::MAX
+        e = sv(path, argv[0])
+        parse_axioms.append(z3.Implies(parses(e), z3.InRe(e, U64_SUP)))
+        parse_axioms.append(z3.Implies(z3.InRe(e, U64_SUB), parses(e)))
+        return enum_obj(z3.If(parses(e), z3.IntVal(0), z3.IntVal(1)))
+
+    def s_opaque_result(eng, path, argv, callee):
+        # a fallible library / repository check the query does not look into: either outcome
+        d = z3.Int('res%d#d' % next(Obj.cnt))
+        path.cond.append(z3.Or(d == 0, d == 1))
+        o = enum_obj(d)
+        pay = Obj('p%d' % next(Obj.cnt))
+        pay.fields[0] = Obj('okv%d' % next(Obj.cnt))
+        o.fields[('as', 'Ok')] = pay
+        o.fields[('as', 'Err')] = Obj('errv%d' % next(Obj.cnt))
+        return o
+
     def s_generic_err(eng, path, argv, callee):
         return Obj('stderr%d' % next(Obj.cnt))
 
@@ -118,6 +147,9 @@ def run():
         (r'<impl str>::strip_prefix::<&str>$', s_strip_prefix),
         (r'Option::<&str>::unwrap$', s_unwrap),
         (r'StdError::generic_err::<', s_generic_err),
+        (r'<impl str>::parse::<u64>$', s_parse_u64),
+        (r'^validate_address_prefix$|helpers::validate_address_prefix$', s_opaque_result),
+        (r'Option::<.*>::transpose$', s_opaque_result),
     ]
 
     def relation(fname):
@@ -169,6 +201,7 @@ def run():
         for name, neg in queries:
             sol = z3.Solver()
             sol.set('timeout', 60000)
+            sol.add(*defs)
             sol.add(neg)
             t0 = time.time()
             r = sol.check()
@@ -185,6 +218,76 @@ def run():
 
     decide('validate_denom', lambda s: z3.And(z3.Length(s) > 3, z3.InRe(s, ALPHA)), 'len > 3 and all bytes in [A-Za-z]')
     decide('validate_ibc_denom', lambda s: z3.And(z3.PrefixOf(z3.StringVal('ibc/'), s), z3.Length(s) == 68), 'it starts with ibc/ and is 68 bytes long')
+
+    # ---- UnsafeProtocolChainConfig::validate: channel and staked-asset denom, for every string ----
+    try:
+        vname = None
+        for mm in re.finditer(r'^fn ([^\n]*?::validate)\(_1: &UnsafeProtocolChainConfig\)', text, re.M):
+            vname = mm.group(1)
+        if vname is None:
+            raise mirx.Unsupported('UnsafeProtocolChainConfig::validate not found')
+        src_types = open('/repo/contracts/staking/src/types.rs').read()
+        src_state = open('/repo/contracts/staking/src/state.rs').read()
+        uf = mirx.struct_fields(src_types, 'UnsafeProtocolChainConfig')
+        pf = mirx.struct_fields(src_state, 'ProtocolChainConfig')
+        ch, dn = z3.String('channel'), z3.String('denom')
+        me = Obj('self')
+        me.fields[uf.index('ibc_channel_id')] = SObj(ch)
+        me.fields[uf.index('ibc_token_denom')] = SObj(dn)
+        eng = Engine([mod], SUMM + summ.BASE, inline=[r'^validate_ibc_denom(::<.*>)?$'])
+        paths = eng.relation(mod.get(vname), [me])
+        oks = []
+        undecided = 0
+        for p in paths:
+            if p.outcome[0] != 'return':
+                continue
+            d = z3.simplify(p.outcome[1].disc())
+            if not z3.is_int_value(d):
+                undecided += 1
+            elif d.as_long() == 0:
+                oks.append(p)
+        info['UnsafeProtocolChainConfig::validate'] = dict(paths=len(paths), ok_paths=len(oks), opaque_calls=sorted(eng.opaque_calls)[:8])
+        results.append(dict(name='protocol section validate: the result variant is decided on every path and some path returns Ok (non-vacuity)', result='structural', ok=undecided == 0 and len(oks) > 0, prop='C14', props=['C14', 'C09']))
+        CH_RE = z3.Concat(z3.Re('channel-'), U64_SUP)
+        bad_ch, bad_keep, bad_dn, shape = [], [], [], True
+        for p in oks:
+            c = z3.And(*p.cond) if p.cond else z3.BoolVal(True)
+            out = p.outcome[1].get(('as', 'Ok')).get(0)
+            sc, sd = out.get(pf.index('ibc_channel_id')), out.get(pf.index('ibc_token_denom'))
+            if not isinstance(sc, SObj) or not isinstance(sd, SObj):
+                shape = False
+                continue
+            bad_ch.append(z3.And(c, z3.Not(z3.InRe(ch, CH_RE))))
+            bad_keep.append(z3.And(c, z3.Or(sc.e != ch, sd.e != dn)))
+            bad_dn.append(z3.And(c, z3.Not(z3.And(z3.PrefixOf(z3.StringVal('ibc/'), dn), z3.Length(dn) == 68))))
+        results.append(dict(name='protocol section validate: the stored channel and denom are string terms of the inputs', result='structural' if shape else 'inconclusive: stored value flows through an opaque call', ok=shape, inconclusive=not shape, prop='C14', props=['C14', 'C09']))
+        # accepted channels include every channel-<up to 19 digits>
+        acc = z3.Or(*[z3.And(*p.cond) if p.cond else z3.BoolVal(True) for p in oks]) if oks else z3.BoolVal(False)
+        rej_ch = z3.Or(*[z3.And(*(p.cond or [z3.BoolVal(True)])) for p in paths if p.outcome[0] == 'return' and z3.is_int_value(z3.simplify(p.outcome[1].disc())) and z3.simplify(p.outcome[1].disc()).as_long() == 1 and not any('res' in str(x) for x in p.cond)])
+        for name, neg, props in [
+            ('protocol section validate: an accepted channel is `channel-` + optional `+` + decimal digits, for every string (premise of the C09 unambiguity lemma)', z3.Or(*bad_ch) if bad_ch else z3.BoolVal(False), ['C14', 'C09']),
+            ('protocol section validate: channel and staked-asset denom are stored verbatim, for every string', z3.Or(*bad_keep) if bad_keep else z3.BoolVal(False), ['C14', 'C09']),
+            ('protocol section validate: an accepted staked-asset denom is ibc/ + 64 bytes, for every string', z3.Or(*bad_dn) if bad_dn else z3.BoolVal(False), ['C14']),
+            ('protocol section validate: no `channel-<1..19 digits>` identifier is refused for its channel (witness search)', z3.And(z3.InRe(ch, z3.Concat(z3.Re('channel-'), U64_SUB)), rej_ch), ['C14']),
+        ]:
+            sol = z3.Solver()
+            sol.set('timeout', 60000)
+            sol.add(*parse_axioms)
+            sol.add(*defs)
+            sol.add(neg)
+            t0 = time.time()
+            r = sol.check()
+            res = dict(name=name, result=str(r), ok=(r == z3.unsat), time_s=round(time.time() - t0, 3), prop='C14', props=props)
+            if r == z3.sat:
+                m = sol.model()
+                un = lambda t_: re.sub(r'\\u\{([0-9a-fA-F]+)\}', lambda mm: chr(int(mm.group(1), 16)), t_)
+                res['model'] = {'channel': un(m.eval(ch, model_completion=True).as_string()), 'denom': un(m.eval(dn, model_completion=True).as_string())}
+                res['replay'] = dict(kind='protocfg', model=res['model'])
+            if r == z3.unknown:
+                res['inconclusive'] = True
+            results.append(res)
+    except (mirx.Unsupported, AssertionError, ValueError) as e:
+        results.append(dict(name='MIR executor reaches UnsafeProtocolChainConfig::validate', result='inconclusive: ' + str(e)[:200], ok=False, inconclusive=True, prop='C14', props=['C14', 'C09']))
 
     # structural: the validators are on the path of every configuration entry point
     def body_of(pattern):
